@@ -44,10 +44,29 @@ Section SuiteInd.
     end.
 End SuiteInd.
 
-(* the live image of a loaded report: ranks 0, children in the same order *)
+(* the tests of a suite with the key the writer gives them during a replay: (0, position) *)
+Fixpoint number_from (i : Z) (l : list test_result) : list (Z * test_result) :=
+  match l with
+  | [] => []
+  | t :: r => (test_key 0 i, t) :: number_from (Z.succ i) r
+  end.
+
+Lemma sort_number_from : forall l i, sort_by fst (number_from i l) = number_from i l.
+Proof.
+  induction l as [|t l IH]; intro i; [reflexivity|].
+  unfold sort_by in *. cbn [number_from fold_right]. rewrite IH.
+  destruct l as [|t' l']; [reflexivity|]. cbn [number_from insert_by fst].
+  replace (Z.leb (test_key 0 i) (test_key 0 (Z.succ i))) with true; [reflexivity|].
+  symmetry. apply Z.leb_le. unfold test_key. lia.
+Qed.
+
+Lemma map_snd_number_from : forall l i, map snd (number_from i l) = l.
+Proof. induction l; intro i; simpl; auto. rewrite IHl. reflexivity. Qed.
+
+(* the live image of a loaded report: suite ranks 0, test keys (0, position), children in the same order *)
 Fixpoint embed (s : suite_result) : lsuite :=
   match s with
-  | SuiteResult m a e x y tests subs => LSuite m 0 a e x y (map (fun t => (0%Z, t)) tests) (map embed subs)
+  | SuiteResult m a e x y tests subs => LSuite m 0 a e x y (number_from 0 tests) (map embed subs)
   end.
 
 Lemma ls_name_embed : forall s, ls_name (embed s) = m_name (s_meta_of s).
@@ -56,9 +75,7 @@ Proof. destruct s; reflexivity. Qed.
 Lemma norm_embed : forall s, norm_suite (embed s) = s.
 Proof.
   induction s using suite_ind'. cbn [embed norm_suite]. f_equal.
-  - rewrite (sort_by_const _ fst 0%Z).
-    + rewrite map_map. simpl. apply map_id.
-    + intros x0 Hx. apply in_map_iff in Hx. destruct Hx as [t [Ht _]]. subst. reflexivity.
+  - rewrite sort_number_from. apply map_snd_number_from.
   - rewrite map_map. rewrite (sort_by_const _ fst 0%Z).
     + rewrite map_map. simpl. induction H; simpl; auto. rewrite H, IHForall. reflexivity.
     + intros x0 Hx. apply in_map_iff in Hx. destruct Hx as [u [Hu _]]. subst. simpl. destruct u; reflexivity.
@@ -204,16 +221,16 @@ Section Identity.
     = bind (f (LSuite m rk st en su td ts us)) (fun s' => Ok (mkW a b x y (plug c (l ++ [s'])) A)).
   Proof. intros. apply (on_suite_here f c l (LSuite m rk st en su td ts us)); auto. Qed.
 
-  Lemma replay_test_ok : forall c l a b x y m rk st en su td ts us t A,
+  Lemma replay_test_ok : forall c l a b x y m rk st en su td ts us pos t A,
     ctx_ok c -> name_taken (m_name m) l = false -> test_taken (m_name (t_meta t)) ts = false -> test_ok t = true ->
-    exists es A', replay_test replay_step now th (ctx_path c ++ [m_name m]) t = (es, None) /\
+    exists es A', replay_test replay_step now th (ctx_path c ++ [m_name m]) pos t = (es, None) /\
       apply_all (mkW a b x y (plug c (l ++ [LSuite m rk st en su td ts us])) A) es
-      = Ok (mkW a b x y (plug c (l ++ [LSuite m rk st en su td (ts ++ [(0%Z, t)]) us])) A').
+      = Ok (mkW a b x y (plug c (l ++ [LSuite m rk st en su td (ts ++ [(test_key 0 pos, t)]) us])) A').
   Proof.
-    intros c l a b x y m rk st en su td ts us t A Hc Hl Ht Hok.
+    intros c l a b x y m rk st en su td ts us pos t A Hc Hl Ht Hok.
     destruct t as [tm r]. cbn [t_meta t_result] in *.
-    assert (Hadd : forall r1, add_test (mkNode (ctx_path c ++ [m_name m]) tm 0) r1 (LSuite m rk st en su td ts us)
-                              = Ok (LSuite m rk st en su td (ts ++ [(0%Z, mkTest tm r1)]) us)).
+    assert (Hadd : forall r1, add_test (mkNode (ctx_path c ++ [m_name m]) tm (test_key 0 pos)) r1 (LSuite m rk st en su td ts us)
+                              = Ok (LSuite m rk st en su td (ts ++ [(test_key 0 pos, mkTest tm r1)]) us)).
     { intro. unfold add_test. cbn. unfold test_taken in Ht. rewrite Ht. reflexivity. }
     unfold test_ok in Hok. cbn [t_result] in Hok. unfold replay_test. cbn [t_result t_meta].
     destruct (bypassed r) eqn:Hb.
@@ -240,19 +257,19 @@ Section Identity.
       { pose proof Hok as Hok'. unfold result_ok in Hok'. repeat (apply andb_true_iff in Hok'; destruct Hok' as [Hok' ?]).
         apply option_eqb_str_eq in H. rewrite H. unfold computed_status.
         destruct (r_end r); auto. destruct (forallb step_successful (r_steps r)); reflexivity. }
-      set (started := fire (ETestStart (mkNode (ctx_path c ++ [m_name m]) tm 0) (event_time now (r_start r))
-             :: replay_steps replay_step now th (LocTest (node_path (mkNode (ctx_path c ++ [m_name m]) tm 0))) (r_steps r)
-             ++ (if truthy_time (r_end r) then [ETestEnd (mkNode (ctx_path c ++ [m_name m]) tm 0) (event_time now (r_end r))] else []))).
+      set (started := fire (ETestStart (mkNode (ctx_path c ++ [m_name m]) tm (test_key 0 pos)) (event_time now (r_start r))
+             :: replay_steps replay_step now th (LocTest (node_path (mkNode (ctx_path c ++ [m_name m]) tm (test_key 0 pos)))) (r_steps r)
+             ++ (if truthy_time (r_end r) then [ETestEnd (mkNode (ctx_path c ++ [m_name m]) tm (test_key 0 pos)) (event_time now (r_end r))] else []))).
       assert (Hsame : match r_status r with
                       | None => started
                       | Some st0 => if str_eqb st0 s_passed || str_eqb st0 s_failed then started
-                                    else if str_eqb st0 s_skipped then fire [ETestSkipped (mkNode (ctx_path c ++ [m_name m]) tm 0) (r_status_details r) (event_time now (r_start r))]
-                                    else if str_eqb st0 s_disabled then fire [ETestDisabled (mkNode (ctx_path c ++ [m_name m]) tm 0) (r_status_details r) (event_time now (r_start r))]
+                                    else if str_eqb st0 s_skipped then fire [ETestSkipped (mkNode (ctx_path c ++ [m_name m]) tm (test_key 0 pos)) (r_status_details r) (event_time now (r_start r))]
+                                    else if str_eqb st0 s_disabled then fire [ETestDisabled (mkNode (ctx_path c ++ [m_name m]) tm (test_key 0 pos)) (r_status_details r) (event_time now (r_start r))]
                                     else ([], Some ValueError)
                       end = started).
       { destruct (r_status r); auto. rewrite Hst. reflexivity. }
       rewrite Hsame. unfold started, fire.
-      pose proof (rlens_test c l a b x y m rk st en su td ts us tm 0%Z Hc Hl Ht) as HL.
+      pose proof (rlens_test c l a b x y m rk st en su td ts us tm (test_key 0 pos) Hc Hl Ht) as HL.
       destruct (replay_steps_ok _ _ HL (r_steps r) (initialize_result (event_time now (r_start r))) A
                   (result_ok_steps _ Hok)) as [A1 E1].
       cbv beta in E1.
@@ -270,28 +287,28 @@ Section Identity.
   Lemma test_taken_app : forall n l1 l2, test_taken n (l1 ++ l2) = test_taken n l1 || test_taken n l2.
   Proof. intros. unfold test_taken. apply existsb_app. Qed.
 
-  Lemma replay_tests_ok : forall c l a b x y m rk st en su td us tests ts A,
+  Lemma replay_tests_ok : forall c l a b x y m rk st en su td us tests ts pos A,
     ctx_ok c -> name_taken (m_name m) l = false ->
     (forall t, In t tests -> test_taken (m_name (t_meta t)) ts = false) ->
     distinct (map (fun t => m_name (t_meta t)) tests) = true ->
     forallb test_ok tests = true ->
-    exists es A', seq_all (replay_test replay_step now th (ctx_path c ++ [m_name m])) tests = (es, None) /\
+    exists es A', seq_all_from (replay_test replay_step now th (ctx_path c ++ [m_name m])) pos tests = (es, None) /\
       apply_all (mkW a b x y (plug c (l ++ [LSuite m rk st en su td ts us])) A) es
-      = Ok (mkW a b x y (plug c (l ++ [LSuite m rk st en su td (ts ++ map (fun t => (0%Z, t)) tests) us])) A').
+      = Ok (mkW a b x y (plug c (l ++ [LSuite m rk st en su td (ts ++ number_from pos tests) us])) A').
   Proof.
-    intros c l a b x y m rk st en su td us. induction tests as [|t tests IH]; intros ts A Hc Hl Hfresh Hd Hok.
+    intros c l a b x y m rk st en su td us. induction tests as [|t tests IH]; intros ts pos A Hc Hl Hfresh Hd Hok.
     - exists [], A. simpl. rewrite app_nil_r. auto.
     - simpl in Hd, Hok. apply andb_true_iff in Hd. destruct Hd as [Hd1 Hd2].
       apply andb_true_iff in Hok. destruct Hok as [Hok1 Hok2]. apply negb_true_iff in Hd1.
-      destruct (replay_test_ok c l a b x y m rk st en su td ts us t A Hc Hl (Hfresh t (or_introl eq_refl)) Hok1)
+      destruct (replay_test_ok c l a b x y m rk st en su td ts us pos t A Hc Hl (Hfresh t (or_introl eq_refl)) Hok1)
         as [es1 [A1 [R1 E1]]].
-      destruct (IH (ts ++ [(0%Z, t)]) A1 Hc Hl) as [es2 [A2 [R2 E2]]]; auto.
+      destruct (IH (ts ++ [(test_key 0 pos, t)]) (Z.succ pos) A1 Hc Hl) as [es2 [A2 [R2 E2]]]; auto.
       { intros t' Ht'. rewrite test_taken_app. rewrite (Hfresh t' (or_intror Ht')). simpl.
         rewrite orb_false_r.
         apply (existsb_false_in _ _ _ (m_name (t_meta t')) Hd1). apply in_map_iff. eauto. }
       exists (es1 ++ es2), A2. split.
-      + cbn [seq_all]. rewrite R1, R2. reflexivity.
-      + rewrite apply_all_app, E1. cbn [bind]. rewrite E2. rewrite <- app_assoc. reflexivity.
+      + cbn [seq_all_from]. rewrite R1, R2. reflexivity.
+      + rewrite apply_all_app, E1. cbn [bind]. rewrite E2. cbn [number_from]. rewrite <- app_assoc. reflexivity.
   Qed.
 
   (* ---------------- suites ---------------- *)
@@ -367,16 +384,16 @@ Section Identity.
     { intros. cbn [apply]. unfold node_path. cbn [n_parent n_meta nd]. rewrite on_suite_here'; auto. }
     { intros. cbn [apply]. unfold node_path. cbn [n_parent n_meta nd]. rewrite on_suite_here'; auto. }
     (* 3. tests *)
-    destruct (replay_tests_ok c L ra rb rx ry m 0%Z (Some t0) None x None [] tests [] A1) as [es2 [A2 [R2 E2]]]; auto.
+    destruct (replay_tests_ok c L ra rb rx ry m 0%Z (Some t0) None x None [] tests [] 0%Z A1) as [es2 [A2 [R2 E2]]]; auto.
     (* 4. sub-suites *)
-    destruct (replay_suites_loop (c ++ [(L, LSuite m 0 (Some t0) None x None ([] ++ map (fun t => (0%Z, t)) tests) [])])
+    destruct (replay_suites_loop (c ++ [(L, LSuite m 0 (Some t0) None x None ([] ++ number_from 0 tests) [])])
                 ra rb rx ry subs HP Hsubs) with (U := @nil lsuite) (A := A2) as [es3 [A3 [R3 E3]]]; auto.
     { apply ctx_ok_app; auto. }
     rewrite ctx_path_app in R3. unfold ls_name in R3. cbn [snd ls_meta] in R3. fold p in R3.
     rewrite !plug_app in E3. cbn [set_ls_subs app] in E3.
     (* 5. teardown *)
     destruct (replay_phase_ok (LocSuiteTeardown p)
-                (fun o A => mkW ra rb rx ry (plug c (L ++ [LSuite m 0 (Some t0) None x o (map (fun t => (0%Z, t)) tests) (map embed subs)])) A)
+                (fun o A => mkW ra rb rx ry (plug c (L ++ [LSuite m 0 (Some t0) None x o (number_from 0 tests) (map embed subs)])) A)
                 (ESuiteTeardownStart nd) (ESuiteTeardownEnd nd)) with (o := y) (A := A3) as [A4 E4]; auto.
     { apply rlens_suite_teardown; auto. }
     { intros. cbn [apply]. unfold node_path. cbn [n_parent n_meta nd]. rewrite on_suite_here'; auto. }
@@ -387,7 +404,7 @@ Section Identity.
     unfold event_time at 1. rewrite Et0. subst nd p.
     rewrite <- app_comm_cons. cbn [apply_all]. rewrite E0. cbn [bind].
     rewrite apply_all_app. rewrite E1. cbn [bind].
-    rewrite apply_all_app. rewrite E2. cbn [bind]. change ([] ++ map (fun t : test_result => (0%Z, t)) tests) with (map (fun t : test_result => (0%Z, t)) tests).
+    rewrite apply_all_app. rewrite E2. cbn [bind]. change ([] ++ number_from 0 tests) with (number_from 0 tests).
     rewrite apply_all_app. rewrite E3. cbn [bind].
     rewrite apply_all_app. rewrite E4. cbn [bind].
     destruct (end_ok_cases now _ Hen) as [[E5 E6]|[t5 [E5 [E6 E7]]]]; rewrite E6.
